@@ -22,7 +22,7 @@ fn main() {
   let mut cfg = RunCfg {
     seed: 1,
     tier: Tier::Quick,
-    out_dir: std::path::PathBuf::from("/verif/build/cases").join(&prop),
+    out_dir: std::path::PathBuf::from("build/cases").join(&prop),
     threads: std::thread::available_parallelism().map(|n| n.get()).unwrap_or(4),
     only_case: None,
   };
@@ -62,6 +62,7 @@ fn main() {
   match prop.as_str() {
     "c15" => props::c15::run(&cfg),
     "c02" => props::c02::run(&cfg),
+    "c14" => props::c14::run(&cfg),
     _ => {
       eprintln!("unknown property {}", prop);
       std::process::exit(2);
